@@ -17,7 +17,7 @@ for line in out.splitlines():
 anchors = {}
 for l in open(f'{V}/properties.jsonl'):
     d = json.loads(l); anchors[d['id']] = d.get('anchors', {}).get('files', [])
-KINDS = ["site","post","pre","monitor","inv.entry","inv.preserve","inv.iteration","loop.complete","guard.writer","own.release","own.handoff","own.use","own.store","lock.block"]
+KINDS = ["safe.nil","site","post","pre","monitor","inv.entry","inv.preserve","inv.iteration","loop.complete","guard.writer","own.release","own.handoff","own.use","own.store","lock.block"]
 # obligations that fail on the pinned tree and are dealt with under one property (known finding or not claimed there)
 ELSEWHERE = [
  (r'^monitor:\(\*protocol/xpush\.socket\)\.SetOption:unlock:s\.Mutex:socket\.inv1#4$', 'C02', 'recorded as a known finding under C02 (PUSH accepts WriteQLen 0); not reported a second time here'),
@@ -26,6 +26,9 @@ ELSEWHERE = [
  (r'^lock\.block:\(\*protocol/xpush\.socket\)\.sender:block:recv:s\.sendQ$', 'C11', 'receive under the lock guarded by len(sendQ) != 0: needs channel-content reasoning (listed with this reason under C11)'),
  (r'^site:\(\*protocol/xbus\.pipe\)\.receiver:at:call:Close#1:1$', 'C08,C19', 'recorded as a known finding under C08 and C19 (raw BUS receiver leaves its loop on a queue resize); not reported a second time here'),
 ]
+SUBSTRATE = re.compile(r'^(message\.go|device\.go|protocol\.go|pipe\.go|options\.go|internal/core/[a-z]+\.go|transport/[a-z_]+\.go|transport/(tcp|ipc|tlstcp|ws|wss|inproc)/[a-z_]+\.go|protocol/protocol\.go)$')
+NO_SUBSTRATE = {'C20'}
+ALL_PATTERNS = {'C01'}
 props = json.load(open(src))
 for pr in props:
     pid = pr['id']
@@ -33,6 +36,14 @@ for pr in props:
     pr['not_claimed'] = [n for n in pr.get('not_claimed', []) if n.get('generated') != 'anchor-files']
     keys = sorted({k for f in anchors.get(pid, []) for k in byfile.get(f, [])})
     if not keys: continue
+    if pid not in NO_SUBSTRATE:
+        # every property but macat's is stated end to end (what the peer application receives, what a later call
+        # returns): it depends on the whole substrate the patterns run on, so a failing functional obligation of
+        # the root package, internal/core or a transport is reported under it as well (DESIGN decision 32)
+        keys = sorted(set(keys) | {k for f, ks in byfile.items() if SUBSTRATE.match(f) for k in ks})
+    if pid in ALL_PATTERNS:
+        # stated "for every messaging pattern in cooked and raw mode": the pattern code is part of the path
+        keys = sorted(set(keys) | {k for f, ks in byfile.items() if re.match(r'^protocol/[a-z0-9]+/[a-z0-9]+\.go$', f) for k in ks})
     rx = '^(?:' + '|'.join(re.escape(k) for k in keys) + ')$'
     pr['select'].append({"func": rx, "kinds": KINDS, "generated": "anchor-files"})
     pr['select'].append({"func": rx, "kinds": ["own.exit"], "name": "error-keeps", "generated": "anchor-files"})
